@@ -31,11 +31,24 @@ var solvers = []solverCfg{
 func (vc *VC) queryText(o *Obligation, withModel bool) string {
 	var b strings.Builder
 	b.WriteString(prelude)
-	for _, d := range vc.decls {
-		b.WriteString(d)
-		b.WriteString("\n")
+	frameInst := vc.frameInstances(o.Guard.S+" "+o.Goal.S+" "+strings.Join(o.Extra, " "), o.PrefixLen)
+	if noSlice {
+		for _, d := range vc.decls {
+			b.WriteString(d)
+			b.WriteString("\n")
+		}
+		for _, l := range vc.lines[:o.PrefixLen] {
+			b.WriteString(l)
+			b.WriteString("\n")
+		}
+	} else {
+		seed := o.Guard.S + " " + o.Goal.S + " " + strings.Join(o.Extra, " ") + " " + strings.Join(frameInst, " ")
+		for _, l := range vc.slicer().slice(o.PrefixLen, seed) {
+			b.WriteString(l)
+			b.WriteString("\n")
+		}
 	}
-	for _, l := range vc.lines[:o.PrefixLen] {
+	for _, l := range frameInst {
 		b.WriteString(l)
 		b.WriteString("\n")
 	}
@@ -53,6 +66,9 @@ func (vc *VC) queryText(o *Obligation, withModel bool) string {
 	}
 	return b.String()
 }
+
+// noSlice disables relevance slicing (GOVC_NOSLICE=1), for debugging.
+var noSlice = os.Getenv("GOVC_NOSLICE") != ""
 
 type solveResult struct {
 	verdict string // unsat sat unknown
